@@ -273,3 +273,31 @@ def controls(ctx):
         one = Program({"crate": "controls", "fns": [prog.fn(name).d], "adts": []})
         raw_transfer_discipline(sub, one, "R2", floors=False)
         ctx.control("R2", name, any(not o.ok and "floor" not in o.key for o in sub.obs), expect)
+
+
+def no_error_turned_into_success(ctx, prog, rule, floor=300):
+    """for every call of a Result-returning function inside a Result-returning function: once the result is known to
+    be Err (its `?`, match or is_err() test takes the error side), no path reaches a successful return.  An error that
+    is matched and answered with Ok(..) (`Err(e) if e.kind() == .. => return Ok(0)`) hides a device failure."""
+    from simple_rules import assume_result_of_call
+    tested = 0
+    for p, f in sorted(prog.fns.items()):
+        if not f.ret_ty().startswith("std::result::Result<"):
+            continue
+        errs = f.err_exit_blocks()
+        rets = set(f.return_blocks())
+        for bi, t in f.calls():
+            if t["dest"]["proj"] or t["target"] < 0 or not f.local_ty(t["dest"]["local"]).startswith("std::result::Result<"):
+                continue
+            g = assume_result_of_call(f, bi, False)
+            if g == f.cfg():
+                continue                    # never inspected here (returned as it is, or dropped: R1)
+            tested += 1
+            pth = find_path(g, g.get(bi, []), rets, errs)
+            if pth is not None:
+                ctx.fn_seen(f)
+                ctx.ob(rule, "error-swallowed/%s/%s" % (short(p), short(callee_of(t))), False,
+                       "%s: an Err from %s can end in a successful return" % (short(p), short(callee_of(t))), where=f.file_line(bi),
+                       path=" -> ".join("bb%d" % b for b in pth[:12]))
+    ctx.ob(rule, "no-error-swallowed", True, "%d inspected call results: the error side never reaches a successful return" % tested, nontrivial=False)
+    ctx.floor(rule, "inspected Result-returning calls", tested, floor, semantic=False)
